@@ -695,9 +695,10 @@ reg("AXILiteDownConverter(32->16),all", "thorough", kind="axil_down", mw=32, sw=
 reg("AXILiteDownConverter(32->8)", "quick", kind="axil_down", mw=32, sw=8, nbytes=8, strbs=(0b0000, 0b0001, 0b1000, 0b1111), marks=(1,), w_late=False)
 reg("AXILiteDownConverter(32->16)+concurrent", "thorough", kind="axil_down", mw=32, sw=16, nbytes=8, strbs=(0b0011, 0b1100, 0b1111), marks=(1,), conc=True)
 reg("AXILiteDownConverter(32->16),err_responses", "quick", kind="axil_down", mw=32, sw=16, nbytes=8, strbs=(0b0011, 0b1111), marks=(1,), w_late=False, err=True, words=(0,), b2b=True)
-reg("AXILiteUpConverter(16->32),err_responses", "thorough", kind="axil_up", mw=16, sw=32, nbytes=8, strbs=(0b11,), marks=(1,), w_late=False, err=True, words=(0, 1), b2b=True)
+reg("AXILiteUpConverter(16->32),err_responses", "quick", kind="axil_up", mw=16, sw=32, nbytes=8, strbs=(0b11,), marks=(1,), w_late=False, err=True, words=(0, 1), b2b=True)
 reg("AXILiteUpConverter(16->32)", "quick", kind="axil_up", mw=16, sw=32, nbytes=8, strbs=S16, words=(0, 1, 2), marks=(1,))
 reg("AXILiteUpConverter(8->32)", "thorough", kind="axil_up", mw=8, sw=32, nbytes=8, strbs=(0, 1), words=(0, 1, 3, 4), marks=(1, 2))
+reg("AXILiteUpConverter(8->32),1mark", "quick", kind="axil_up", mw=8, sw=32, nbytes=8, strbs=(0, 1), words=(0, 3, 4), marks=(1,))
 reg("AXILiteConverter(32->32)", "quick", kind="axil_conv", mw=32, sw=32, nbytes=8, strbs=(0b0001, 0b1111), marks=(1,))
 reg("AXILite2Wishbone(32bit)", "quick", kind="axil2wb", mw=32, nbytes=8, strbs=S32, marks=(1,))
 reg("AXILite2Wishbone(16bit)+concurrent", "quick", kind="axil2wb", mw=16, nbytes=4, strbs=(0b01, 0b11), marks=(1,), conc=True)
@@ -713,7 +714,7 @@ for (itf, idw, bus, bdw, direction, tier) in [
         ("wb", 32, "axil", 64, "m2s", "quick"), ("axil", 32, "wb", 32, "m2s", "quick"), ("axil", 64, "wb", 32, "m2s", "quick"),
         ("axil", 32, "axil", 64, "m2s", "quick"), ("axil", 64, "axil", 32, "m2s", "thorough"), ("wb", 64, "axil", 32, "m2s", "thorough"),
         ("wb", 32, "wb", 64, "s2m", "quick"), ("wb", 32, "axil", 64, "s2m", "quick"), ("axil", 32, "axil", 64, "s2m", "quick"),
-        ("axil", 32, "wb", 64, "s2m", "thorough"), ("axil", 64, "wb", 32, "s2m", "thorough"), ("wb", 64, "axil", 32, "s2m", "thorough")]:
+        ("axil", 32, "wb", 64, "s2m", "thorough"), ("axil", 64, "wb", 32, "s2m", "quick"), ("wb", 64, "axil", 32, "s2m", "quick")]:
     mwid, swid = (idw, bdw) if direction == "m2s" else (bdw, idw)
     nl_ = mwid//8
     strbs_ = (0, 1, (1 << nl_) - 1, 1 << (nl_ - 1), 0b0110) if nl_ >= 4 else tuple(range(1 << nl_))
@@ -730,7 +731,7 @@ reg("AXILite2Wishbone(16bit)+err_responses+eager_ready", "quick", kind="axil2wb"
 reg("AXILite2CSR(32bit)+eager_ready", "quick", kind="axil2csr", mw=32, nbytes=8, strbs=(0b1111,), marks=(1, 2), eager_ready=True)
 reg("add_adapter(axil32->wb32 bus,m2s)+eager_ready", "quick", kind="adapter", itf="axil", idw=32, bus="wb", bdw=32, direction="m2s", mw=32, sw=32, nbytes=16,
     marks=(1,), strbs=(0, 1, 0b1111, 0b0110), w_late=False, eager_ready=True)
-reg("add_adapter(axil64->wb32 bus,m2s)+eager_ready", "thorough", kind="adapter", itf="axil", idw=64, bus="wb", bdw=32, direction="m2s", mw=64, sw=32, nbytes=16,
+reg("add_adapter(axil64->wb32 bus,m2s)+eager_ready", "quick", kind="adapter", itf="axil", idw=64, bus="wb", bdw=32, direction="m2s", mw=64, sw=32, nbytes=16,
     marks=(1,), strbs=(0x0F, 0xF0, 0xFF, 0x10), w_late=False, eager_ready=True)
 reg("AHB2Wishbone(32bit)", "quick", kind="ahb2wb", mw=32, nbytes=8, marks=(1,))
 reg("AHB2Wishbone(32bit)+busy_cycles", "quick", kind="ahb2wb", mw=32, nbytes=8, marks=(1,), busy=True)
@@ -739,7 +740,7 @@ reg("AHB2Wishbone(32bit),2marks,lat2", "thorough", kind="ahb2wb", mw=32, nbytes=
 reg("AHB2Wishbone(64bit)", "thorough", kind="ahb2wb", mw=64, nbytes=16, marks=(1,), words=(0, 1))
 reg("AHB2Wishbone(64bit),1 word", "quick", kind="ahb2wb", mw=64, nbytes=8, marks=(1,), words=(0,))
 reg("AXILite2CSR(32bit)", "quick", kind="axil2csr", mw=32, nbytes=8, strbs=(0b1111,), marks=(1, 2))
-reg("AXILite2CSR(32bit,register)", "thorough", kind="axil2csr", mw=32, nbytes=8, strbs=(0b1111,), marks=(1, 2), register=True)
+reg("AXILite2CSR(32bit,register)", "quick", kind="axil2csr", mw=32, nbytes=8, strbs=(0b1111,), marks=(1, 2), register=True)
 reg("AXILite2CSR(32bit)+partial_strb", "quick", kind="axil2csr", mw=32, nbytes=8, strbs=(0b1111, 0b0001), marks=(1, 2))
 reg("Wishbone2CSR(32bit,register=True)", "quick", kind="wb2csr", mw=32, nbytes=8, strbs=(0b1111,), marks=(1, 2), register=True)
 reg("Wishbone2CSR(32bit,register=False)", "quick", kind="wb2csr", mw=32, nbytes=8, strbs=(0b1111,), marks=(1, 2), register=False)
